@@ -80,10 +80,30 @@ class Gen:
         if kind == 'list':
             return self.mk('Array' if self.fmt != 'yaml' else 'Sequence', VecV([k[0] for k in kids])), ('list', [k[1] for k in kids])
         if self.fmt == 'yaml':
+            # YAML keys need not be plain words, or strings at all: the first key of every mapping is a symbolic choice among a plain
+            # name, texts an emitter would have to quote, a one-byte symbolic string, a boolean, null and an integer
             m = MapV('HashMap')
+            keys = []
             for i, k in enumerate(kids):
-                m = m.insert(self.mk('String', NAMES[i]), k[0])
-            return self.mk('Mapping', m), ('map', [(NAMES[i], k[1]) for i, k in enumerate(kids)])
+                kk, kname = self.mk('String', NAMES[i]), NAMES[i]
+                if i == 0:
+                    form = self.choose(tag + '_key', ['plain', 'empty', 'digits', 'true-text', 'tilde', 'colon-space', 'dash', 'quote', 'sym', 'bool', 'null', 'int'])
+                    if form == 'sym':
+                        c = ctx.bv(tag + '_kb', 8)
+                        ctx.assume(z3.And(z3.UGE(c, 0x20), z3.ULT(c, 0x7f), c != ord('b'), c != ord('c')))
+                        kk, kname = self.mk('String', SymStr((c,))), SymStr((c,))
+                    elif form == 'bool':
+                        kk, kname = self.mk('Bool', True), 'true'
+                    elif form == 'null':
+                        kk, kname = self.mk('Null'), 'null'
+                    elif form == 'int':
+                        kk, kname = self.mk('Number', Agg('Number', None, ('i64', 5))), '5'
+                    elif form != 'plain':
+                        t = {'empty': '', 'digits': '123', 'true-text': 'true', 'tilde': '~', 'colon-space': 'a: b', 'dash': '- x', 'quote': "it's"}[form]
+                        kk, kname = self.mk('String', t), t
+                m = m.insert(kk, k[0])
+                keys.append(kname)
+            return self.mk('Mapping', m), ('map', [(keys[i], k[1]) for i, k in enumerate(kids)])
         m = MapV('BTreeMap')
         for i, k in enumerate(kids):
             m = m.insert(NAMES[i], k[0])
@@ -146,6 +166,16 @@ def check_iso(ctx, b, ref, val, problems, path='v'):
         flds = v.fields[0].items
         got = [deref_all(f.fields[0]) for f in flds]
         want = [n for n, _ in ref[1]]
+        if any(type(x) is not str for x in got + want):
+            # a symbolic key: fields are compared in document order, names byte for byte
+            if len(got) != len(want):
+                return bad('keys %r become %r' % (want, got))
+            for g_, w_, f, (n, r) in zip(got, want, flds, ref[1]):
+                e = sym_eq(ctx, g_, w_)
+                if e is False or (e is not True and not ctx.valid(e)):
+                    return bad('keys %r become %r' % (want, got), None if e is False else z3.Not(e))
+                check_iso(ctx, b, r, f.fields[1], problems, '%s.%s' % (path, n))
+            return
         if sorted(got) != sorted(want) or len(got) != len(want):
             return bad('keys %r become %r' % (want, got))
         d = dict((deref_all(f.fields[0]), f.fields[1]) for f in flds)
@@ -174,11 +204,82 @@ def harness_mapping(ctx, case):
     if problems:
         pth, what, neg = problems[0]
         m = ctx.model(neg)
-        out['violations'].append({'key': 'C15:%s:value-differs:%s' % (fmt, what.split(' ')[1] if ' ' in what else what), 'what': '%s include: %s at %s — document %s' % (fmt, what, pth, describe(ref, m)),
-                                  'reproduced': True})
+        v = {'key': 'C15:%s:value-differs:%s' % (fmt, what.split(' ')[1] if ' ' in what else what), 'what': '%s include: %s at %s — document %s' % (fmt, what, pth, describe(ref, m)),
+             'reproduced': True}
+        if fmt == 'yaml' and what.startswith('keys '):
+            text, keys = ref_to_yaml(ref, m)
+            v = dict(v, key='C15:yaml:key-names-differ', reproduced=None, case={'kind': 'cli-include-yaml', 'yaml': text, 'expect_keys': keys})
+        out['violations'].append(v)
     else:
         out['sample'] = {'fmt': fmt, 'document': describe(ref, ctx.model())[:100]}
     return out
+
+
+def concrete_key(n, m):
+    if type(n) is str:
+        return n
+    return bytes(m.eval(x, model_completion=True).as_long() if is_sym(x) else x for x in n.bytes).decode('latin-1')
+
+
+def ref_to_yaml(ref, m, keyforms=None):
+    """YAML (flow style, JSON-compatible scalars) for a reference document under a model, and the nested key names it must decode to"""
+    import json
+    k = ref[0]
+    if k == 'null':
+        return 'null', None
+    if k == 'list':
+        parts = [ref_to_yaml(x, m) for x in ref[1]]
+        return '[' + ', '.join(p[0] for p in parts) + ']', ('list', [p[1] for p in parts])
+    if k == 'map':
+        items, keys = [], []
+        for n, x in ref[1]:
+            t, sub = ref_to_yaml(x, m)
+            name = concrete_key(n, m)
+            items.append('%s: %s' % (json.dumps(name), t))
+            keys.append((name, sub))
+        return '{' + ', '.join(items) + '}', ('map', keys)
+    if k == 'str':
+        return json.dumps(concrete_key(ref[1], m)), None
+    if k == 'bool':
+        v = ref[1]
+        return ('true' if (z3.is_true(m.eval(v, model_completion=True)) if is_sym(v) else v) else 'false'), None
+    return '0', None        # numbers: the key question does not depend on them
+
+
+def keys_of_json(v):
+    if isinstance(v, dict):
+        return ('map', [(k, keys_of_json(x)) for k, x in v.items()])
+    if isinstance(v, list):
+        return ('list', [keys_of_json(x) for x in v])
+    return None
+
+
+def judge_keys(fw, v):
+    """a key-name violation ran through the model of serde_yaml's scalar emitter (third-party, approximated): replay through the
+    real binary — include the YAML text, write it out as JSON, compare the key names"""
+    import json
+    import tempfile
+    c = v['case']
+    with tempfile.TemporaryDirectory(prefix='ucg-verif-c15-') as d:
+        open(os.path.join(d, 'data.yaml'), 'w').write(c['yaml'] + '\n')
+        open(os.path.join(d, 'conf.ucg'), 'w').write('let v = include yaml "data.yaml";\nout json {doc = v};\n')
+        r = fw.native().cli(['build', 'conf.ucg'], d)
+        got = None
+        if os.path.exists(os.path.join(d, 'conf.json')):
+            got = json.load(open(os.path.join(d, 'conf.json')), object_pairs_hook=lambda ps: dict(ps))
+    fw.replayed += 1
+    v['native'] = {'rc': r['rc'], 'stderr': r['stderr'][-200:], 'json': got}
+    if got is None:
+        return True
+
+    def norm(x):
+        # document order of keys is not compared here (JSON objects written by serde_json are sorted)
+        if x is None:
+            return None
+        if x[0] == 'map':
+            return ('map', sorted((k, norm(s)) for k, s in x[1]))
+        return ('list', [norm(s) for s in x[1]])
+    return norm(keys_of_json(got['doc'])) != norm(c['expect_keys'])
 
 
 def describe(ref, m=None):
@@ -303,8 +404,15 @@ def run(fw):
             cases.append({'fam': 'mapping', 'fmt': fmt, 'depth': 2, 'width': 2})
     fw.bounds.update({'tree_depth': 1 if quick else 2, 'children': '0..2', 'numbers': 'symbolic i64 / u64 / finite f64 in each representation the crate offers', 'strings': 'one symbolic printable byte',
                       'hook_programs': len(hook_cases()), 'file_content': '0..3 symbolic printable bytes',
-                      'outside': 'the decoders (text -> serde value) and base64 itself; YAML anchors / merge keys / tags / non-string keys; empty files'})
+                      'yaml_keys': 'first key of every mapping: plain, empty, digits, true, ~, "a: b", "- x", "it\'s", one symbolic byte, boolean, null, integer',
+                      'outside': 'the decoders (text -> serde value) and base64 itself; YAML anchors / merge keys / tags; empty files'})
     fw.explore('mapping', harness_mapping, cases, fuel=50_000_000, max_paths=600000)
+    seen = 0
+    for v in fw.violations:
+        if v.get('case', {}).get('kind') == 'cli-include-yaml':
+            # one native replay per distinct document, at most 12
+            seen += 1
+            v['reproduced'] = judge_keys(fw, v) if seen <= 12 else None
     fw.explore('hook', harness_hook, hook_cases(), fuel=50_000_000)
     fw.assumptions += ['serde_json/serde_yaml/toml from_slice return a planted value tree (or a planted error) for the file\'s bytes; base64 encode is an opaque piece recording engine and data',
                        'virtual file system']
